@@ -241,7 +241,9 @@ def judgeBatchRoot (env : Env) (root : NodeId) (vis : NodeId → Nat) (cf : Bool
       let v := batchViewOf o
       if !cfg.hasPost then [] else
       [("C06", c06 c (items.map Result.box) v), ("C07", !cf || c07 c v), ("C08", c08 c (cfg.conc == 0) v),
-       ("C09", c09 c v), ("C11", c11 c v), ("C02b", !cf || c02Batch c v)]
+       ("C09", c09 c v), ("C11", c11 c v), ("C02b", !cf || c02Batch c v),
+       -- C17 inside batches: slot i is exactly what item i's exec / fallback returned
+       ("C17b", (List.range c.n).all fun i => slotMatches c v.events i (v.slots.getD i default))]
   | _ => []
 
 /-- all property predicates for one run, on an observation `o` -/
@@ -266,8 +268,9 @@ def judgeRun (env : Env) (ctx0 : Ctx) (root : NodeId) (vis : NodeId → Nat) (ca
   let c18 := Spec.c18 o
   let bj := judgeBatchRoot env root vis cancelFree o
   let c02 := c02 && (bj.all fun (k, b) => k != "C02b" || b)
+  let c17 := c17 && (bj.all fun (k, b) => k != "C17b" || b)
   [("C01", c01), ("C02", c02), ("C03", c03), ("C04", c04), ("C05", c05), ("C10", c10), ("C17", c17), ("C18", c18)]
-    ++ bj.filter (·.1 != "C02b")
+    ++ bj.filter (fun p => p.1 != "C02b" && p.1 != "C17b")
 
 def process (sc : ScJ) (obs : ObsJ) : Except String Verdict := do
   let kind ← match sc.kind with
